@@ -80,6 +80,8 @@ inductive CondE
   | segsMoreThan (n : Nat)                -- `len(strings.Split(symbol, ".")) > n`; n = 1 also for `strings.Index…(symbol, ".") >= 0`
   | dotNotFirst                           -- `strings.Index…(symbol, ".") > 0`
   | lastDotNotFirst                       -- `strings.LastIndex…(symbol, ".") > 0`
+  | hasParent                             -- `store.parent != nil` (a child store: StoreDefinition.Parent was set)
+  | parentPublic (n : NameE)              -- `store.parent.IsPublicSymbol(<n>)`: the same method, run by the parent store
   | not (c : CondE)
   | and (a b : CondE)
   | or (a b : CondE)
